@@ -424,6 +424,20 @@ func registerCrypto(P *Program) {
 	})
 	P.reg(gc+"Keccak256", func(it *Interp, a []Value) Value { return it.mkBytes(keccak(it, a)) })
 	P.reg(gc+"Keccak256Hash", func(it *Interp, a []Value) Value { return it.mkByteArray(keccak(it, a)) })
+	// CreateAddress(sender, nonce) = keccak(rlp(sender, nonce))[12:]: evaluated natively for a concrete nonce; for a symbolic
+	// nonce the address is an unspecified constant (no claim depends on the address of a created contract)
+	P.reg(gc+"CreateAddress", func(it *Interp, a []Value) Value {
+		addr := it.concBytes(it.asSlice(&SliceV{Arr: it.newCell(a[0].(*ArrayV), "addr"), Len: 20, Cap: 20}))
+		if n, ok := a[1].(*big.Int); ok {
+			var ad [20]byte
+			copy(ad[:], addr)
+			out := ethCreateAddress(ad, n.Uint64())
+			return it.mkByteArray(out[:])
+		}
+		out := make([]byte, 20)
+		out[0], out[19] = 0xC0, 0x01
+		return it.mkByteArray(out)
+	})
 }
 
 func registerRegexp(P *Program) {
@@ -478,4 +492,29 @@ func registerRegexp(P *Program) {
 	P.reg("(*regexp.Regexp).String", func(it *Interp, a []Value) Value { return re(it, a[0]).String() })
 	P.reg(HaqqMod+"/utils.UnsafeStrToBytes", func(it *Interp, a []Value) Value { return it.mkBytes([]byte(a[0].(string))) })
 	P.reg(HaqqMod+"/utils.UnsafeBytesToStr", func(it *Interp, a []Value) Value { return string(it.concBytes(a[0])) })
+}
+
+
+// ethCreateAddress mirrors go-ethereum's crypto.CreateAddress (RLP list of address and nonce, keccak-256, last 20 bytes).
+func ethCreateAddress(b [20]byte, nonce uint64) [20]byte {
+	var nb []byte
+	switch {
+	case nonce == 0:
+		nb = []byte{0x80}
+	case nonce < 0x80:
+		nb = []byte{byte(nonce)}
+	default:
+		var tmp []byte
+		for n := nonce; n > 0; n >>= 8 {
+			tmp = append([]byte{byte(n)}, tmp...)
+		}
+		nb = append([]byte{0x80 + byte(len(tmp))}, tmp...)
+	}
+	payload := append(append([]byte{0x94}, b[:]...), nb...)
+	enc := append([]byte{0xc0 + byte(len(payload))}, payload...)
+	h := sha3.NewLegacyKeccak256()
+	h.Write(enc)
+	var out [20]byte
+	copy(out[:], h.Sum(nil)[12:])
+	return out
 }
